@@ -19,5 +19,9 @@ CONFIG = dict(
         dict(test="TestC32Enum32", kind="plain", shards=16),
         dict(test="TestC32Pairs", quick=200000, thorough=16000000, shards=16),
         dict(test="TestC32EventIDs", quick=100000, thorough=8000000, shards=16),
+        # slices of 0-5000 IDs (every remainder modulo 4 and 8 above a thousand) through the repository's sorter
+        dict(test="TestC32Sort", quick=300, thorough=16000, shards=16),
+        # 2-8 goroutines encode index values at the same time and decode them afterwards
+        dict(test="TestC32Concurrent", quick=300, thorough=16000, shards=16),
     ],
 )
